@@ -214,7 +214,7 @@ func TestC12(t *testing.T) {
 	counters := []string{"0", "1", "-1", "41", strconv.FormatInt(math.MaxInt64, 10), strconv.FormatInt(math.MaxInt64-1, 10), strconv.FormatInt(math.MinInt64, 10), strconv.FormatInt(math.MinInt64+1, 10), "abc", "", "1.5", " 1"}
 	deltas := []string{"1", "-1", "5", "0", strconv.FormatInt(math.MaxInt64, 10), strconv.FormatInt(math.MinInt64, 10), "1000000"}
 	zscores := []string{"1", "2", "2.5", "-1", "0", "3", "1e3", "-inf", "+inf"}
-	cfgNames := []string{"verif-a", "verif-b", "verif c"}
+	cfgNames := []string{"verif-a", "verif-b", "verif c", "Verif-Mixed", "VERIF-UP"}
 
 	h.Rapid("programs", h.N(10000, 600000), func(rt *rapid.T) {
 		pick := func(label string, pool []string) string { return rapid.SampledFrom(pool).Draw(rt, label) }
